@@ -20,9 +20,11 @@ LEVEL = "exploration"
 DESIGN_REF = "DESIGN.md §4 C19"
 RULE = (
     "cases = (observer in {inotify, inotify-full, polling}, root path type in {str, bytes, Path}, spelling in {abs, rel, "
-    "trailing slash, rel+slash}, recursive, history over names {a, e-acute, snowman, an undecodable byte name}); every "
+    "trailing slash, rel+slash}, recursive, history over names {a, e-acute, snowman, an undecodable byte name}, in one case "
+    "of three a second handler scheduled on the same observer for the same directory under another type/spelling (also "
+    "'/.'), before or after the first); every "
     "non-empty src/dest path of every delivered event is checked for type and for naming a real entry of the history "
-    "after os.fsencode.  non-trivial = a non-ASCII or undecodable name occurs on a moved or synthetic event; distinct = "
+    "after os.fsencode, each handler against the path its own schedule() call gave.  non-trivial = a non-ASCII or undecodable name occurs on a moved or synthetic event; distinct = "
     "digest of the case"
 )
 ASSUMPTIONS = [
@@ -34,16 +36,37 @@ WALL_CAP = c01.WALL_CAP
 NAMES = ["a", "é", "☃", "a_\udce4"]
 
 
+def check_paths(evs, given, names, burst, state, who=""):
+    want_bytes = isinstance(given, bytes)
+    gs = os.fsdecode(given) if want_bytes else str(given)
+    allowed = {os.fsencode(os.path.join(gs, r) if r else gs) for r in names}
+    allowed |= {os.fsencode(gs.rstrip("/")), os.fsencode(gs.rstrip("/") + "/")}
+    for e in evs:
+        for which, p in (("src_path", e.src_path), ("dest_path", e.dest_path)):
+            if p in ("", b""):
+                continue
+            state["checked"] += 1
+            if isinstance(p, bytes) != want_bytes or not isinstance(p, (bytes, str)):
+                raise Violation(
+                    f"{who}{type(e).__name__}.{which} = {p!r} is {type(p).__name__} but the watch was scheduled with {type(given).__name__} {given!r}",
+                    "path-type:" + type(e).__name__ + (":synthetic" if e.is_synthetic else ""),
+                )
+            enc = os.fsencode(p)
+            if enc not in allowed:
+                raise Violation(
+                    f"{who}{type(e).__name__}.{which} = {p!r} does not name an entry of the history under root {given!r} (burst {burst})",
+                    "path-name:" + type(e).__name__ + (":synthetic" if e.is_synthetic else ""),
+                )
+            if (e.is_synthetic or e.event_type == "moved") and any(ord(c) > 127 for c in os.fsdecode(enc)[len(gs) :]):
+                state["special"] = True
+
+
 def run_case(case):
     cfg = case["cfg"]
     s = fsops.Session(cfg, case["init"])
     try:
-        given = s.given
-        want_bytes = isinstance(given, bytes)
-        gs = os.fsdecode(given) if want_bytes else str(given)
         names = set(s.model.tree)
-        checked = 0
-        special = False
+        state = {"checked": 0, "special": False, "twin_checked": 0}
         for bi, burst in enumerate(case["bursts"]):
             before = s.model.copy()
             s.run_burst(burst)
@@ -58,29 +81,16 @@ def run_case(case):
                 raise Violation(f"library thread died: {errs[0][:3]}", "thread-died:" + errs[0][2].split("(")[0])
             if not ok:
                 raise runner.Inconclusive(f"sentinel not answered after burst {bi}")
-            allowed = {os.fsencode(os.path.join(gs, r) if r else gs) for r in names}
-            allowed |= {os.fsencode(gs.rstrip("/")), os.fsencode(gs.rstrip("/") + "/")}
-            for e in evs:
-                for which, p in (("src_path", e.src_path), ("dest_path", e.dest_path)):
-                    if p in ("", b""):
-                        if p == b"" and not want_bytes or (p == "" and False):
-                            pass
-                        continue
-                    checked += 1
-                    if isinstance(p, bytes) != want_bytes or not isinstance(p, (bytes, str)):
-                        raise Violation(
-                            f"{type(e).__name__}.{which} = {p!r} is {type(p).__name__} but the watch was scheduled with {type(given).__name__} {given!r}",
-                            "path-type:" + type(e).__name__ + (":synthetic" if e.is_synthetic else ""),
-                        )
-                    enc = os.fsencode(p)
-                    if enc not in allowed:
-                        raise Violation(
-                            f"{type(e).__name__}.{which} = {p!r} does not name an entry of the history under root {given!r} (burst {burst})",
-                            "path-name:" + type(e).__name__ + (":synthetic" if e.is_synthetic else ""),
-                        )
-                    if (e.is_synthetic or e.event_type == "moved") and any(ord(c) > 127 for c in os.fsdecode(enc)[len(gs) :]):
-                        special = True
-        return {"checked": checked, "special": special}
+            check_paths(evs, s.given, names | s.sentinel_names(), burst, state)
+            if s.given2 is not None:
+                # the second handler, registered for the same directory under another spelling, gets ITS spelling and type
+                evs2, ok2 = s.twin_events()
+                if not ok2:
+                    raise runner.Inconclusive(f"sentinel not seen by the second handler after burst {bi}")
+                n0 = state["checked"]
+                check_paths(evs2, s.given2, names | s.sentinel_names(), burst, state, who="second watch of the same directory: ")
+                state["twin_checked"] += state["checked"] - n0
+        return state
     finally:
         s.close()
 
@@ -96,6 +106,12 @@ def cases(draw, tier):
         "spelling": draw(st.sampled_from(["abs", "rel", "slash", "relslash"])),
         "root_name": draw(st.sampled_from(["root", "ré", "r_\udce4"])),
     }
+    if draw(st.integers(0, 2)) == 0:
+        cfg["twin"] = {
+            "pathtype": draw(st.sampled_from(["str", "bytes", "path"])),
+            "spelling": draw(st.sampled_from(["abs", "rel", "slash", "relslash", "dot", "reldot"])),
+            "first": draw(st.booleans()),
+        }
     opts = {
         "names": NAMES,
         "max_bursts": 3 if tier == "quick" else 5,
@@ -120,15 +136,24 @@ def run_shard(spec):
     st_ = Stats()
     count = [0]
     checked = [0]
+    twin = [0]
 
     def body(case):
         count[0] += 1
         info = run_case(case)
         checked[0] += info["checked"]
+        twin[0] += info["twin_checked"]
         cfg = case["cfg"]
         cl = ["obs:" + cfg["observer"] + ("-full" if cfg.get("full") else ""), "type:" + cfg["pathtype"], "spelling:" + cfg["spelling"], "root:" + ("ascii" if cfg["root_name"] == "root" else "non-ascii")]
         if info["special"]:
             cl.append("non-ascii-on-moved-or-synthetic")
+        if cfg.get("twin"):
+            tw = cfg["twin"]
+            cl.append("second-watch-same-directory")
+            if tw["pathtype"] != cfg["pathtype"]:
+                cl.append("second-watch:other-path-type")
+            if tw["spelling"] != cfg["spelling"]:
+                cl.append("second-watch:other-spelling")
         st_.case(case, info["special"], cl, sample=case if count[0] % 40 == 1 else None)
 
     res = runner.hyp_search(cases(tier), body, seed=runner.derive_seed(seed, ID, i), max_examples=100 if tier == "quick" else 1500, shrink=False)
@@ -136,6 +161,7 @@ def run_shard(spec):
         case, v = res
         st_.fail(case, v.message, v.signature, v.extra)
     st_.extra["paths_checked"] = checked[0]
+    st_.extra["paths_checked_second_watch"] = twin[0]
     return st_
 
 
